@@ -218,3 +218,76 @@ package tor
 //@     invariant [inside] forall k int :: 0 <= k && k < len(fcs) ==> 0 <= fcs[k].offset && 0 <= fcs[k].length && fcs[k].offset + fcs[k].length <= fcs[k].filelength
 //@     invariant [w] writer != nil
 //@   props    C14
+
+// ---- Reader (C02) ----
+//@ use streams
+//@ use net
+// RdOK: a live reader's window [offset, offset+length) lies inside the torrent
+// and its cursor is non-negative; a closed reader holds no requests.
+//@ spec RdOK(r *Reader) bool
+//@   body r.position >= 0 && (r.torrent != nil ==> PGeom(r.torrent) && r.offset >= 0 && r.length >= 0 && r.offset + r.length <= r.torrent.Pieces.Length() && r.torrent.Pieces.Length() <= 1<<60) &&
+//@        (r.torrent == nil ==> r.requestedIndex < 0 && len(r.requested) == 0)
+//@ spec RByte(t *Torrent, off int64, k int) byte
+//@   import "github.com/jech/storrent/tor/piece"
+//@   body piece.PByte(&t.Pieces, off, k)
+//@ spec RVerified(t *Torrent, off int64) bool
+//@   import "github.com/jech/storrent/tor/piece"
+//@   body piece.VerifiedAt(&t.Pieces, off)
+
+// Seek: exactly the file-like cursor arithmetic, relative to the reader's own
+// window (never to the torrent); a failed seek moves nothing.
+//@ func (*Reader).Seek
+//@   requires r != nil && r.position >= 0 && r.length >= 0
+//@   modifies r.position
+//@   ensures  [closed]  r.torrent == nil ==> $r1 != nil
+//@   ensures  [start]   r.torrent != nil && whence == 0 && o >= 0 ==> $r1 == nil && $r0 == o && r.position == o
+//@   ensures  [current] r.torrent != nil && whence == 1 && old(r.position) + o >= 0 && old(r.position) + o <= 9223372036854775807 ==> $r1 == nil && $r0 == old(r.position) + o && r.position == $r0
+//@   ensures  [end]     r.torrent != nil && whence == 2 && r.length + o >= 0 && r.length + o <= 9223372036854775807 ==> $r1 == nil && $r0 == r.length + o && r.position == $r0
+//@   ensures  [fail]    $r1 != nil ==> r.position == old(r.position) && $r0 == old(r.position)
+//@   ensures  [nonneg]  r.position >= 0
+//@   ensures  [whence]  (whence < 0 || whence > 2) ==> $r1 != nil
+//@   props    C02
+
+// chunks: NOT verified (floating-point prefetch window); request is verified
+// for an arbitrary list.
+//@ func (*Reader).chunks
+//@   trusted
+//@   ensures  pos < 0 ==> len($r0) == 0
+// Torrent.Request: NOT verified here (channel rendezvous with the event loop, C10/C17).
+//@ func (*Torrent).Request
+//@   trusted
+//@   requires t != nil
+
+//@ func (*Reader).request
+//@   requires r != nil && (r.torrent == nil ==> r.requestedIndex < 0 && len(r.requested) == 0 && pos < 0) && (r.torrent != nil ==> PGeom(r.torrent))
+//@   modifies r.requested, r.requestedIndex, r.ch
+//@   ensures  [closed] r.torrent == nil ==> r.requestedIndex < 0 && len(r.requested) == 0
+//@   ensures  [released] pos < 0 ==> r.requestedIndex < 0 && len(r.requested) == 0
+//@   loop 1
+//@     invariant (r.torrent != nil || len(chunks) == 0) && fresh_(r.requested) && len(r.requested) <= $i
+//@   loop 2
+//@     invariant r.torrent != nil || len(old) == 0
+//@   props    C02 C10
+
+// Read: the bytes returned at cursor p are the bytes the piece store holds at
+// torrent offset offset+p in a VERIFIED piece; never more than the window has
+// left; the cursor advances by exactly n; end-of-file exactly at length.
+//@ func (*Reader).Read
+//@   requires r != nil && r.context != nil && RdOK(r)
+//@   modifies r.position, r.requested, r.requestedIndex, r.ch, a[_], ctxDone(r.context)
+//@   ensures  [closed]   r.torrent == nil ==> n == 0 && err != nil
+//@   ensures  [n]        0 <= n && n <= len(a)
+//@   ensures  [window]   r.torrent != nil ==> old(r.position) + int64(n) <= r.length || n == 0
+//@   ensures  [cursor]   r.position == old(r.position) + int64(n)
+//@   ensures  [ateof]    r.torrent != nil && old(r.position) >= r.length ==> n == 0 && err == io.EOF
+//@   ensures  [eof]      r.torrent != nil && err == nil ==> r.position < r.length
+//@   ensures  [verified] n > 0 ==> RVerified(r.torrent, r.offset + old(r.position))
+//@   ensures  [bytes]    forall k int :: 0 <= k && k < n ==> a[k] == RByte(r.torrent, r.offset + old(r.position), k)
+//@   ensures  [ok]       RdOK(r)
+//@   props    C02
+
+//@ func (*Reader).Close
+//@   requires r != nil && RdOK(r)
+//@   modifies r.requested, r.requestedIndex, r.ch, r.torrent
+//@   ensures  [closed] r.torrent == nil && RdOK(r)
+//@   props    C02
